@@ -22,9 +22,12 @@ class ObjWorld:
             m = self.model.modules.get(mn)
             if m is None:
                 continue
+            mine: Dict[str, Any] = {}
             for f in m.all_funcs:
-                if f.cls is None and "<locals>" not in f.qualname:
-                    self.helpers.setdefault(f.name, f.node)
+                if f.cls is None and "<locals>" not in f.qualname and not any(d.split(".")[-1] == "overload" for d in f.decorators()):
+                    mine[f.name] = f.node  # a later definition in the module replaces an earlier one, as at import time
+            for k, v in mine.items():
+                self.helpers.setdefault(k, v)
             for k, v in m.assigns.items():
                 ok, c = try_const(self.model, m, v)
                 if ok and isinstance(c, (int, str, tuple, list, frozenset, set, bytes)):
